@@ -564,6 +564,27 @@ theorem delivered_upstream_never_lost_downstream (rcfg : Relay.Cfg) (hl : rcfg.l
     rw [all_ok_smtp_250 _ hall]
   exact acknowledged_recipient_never_lost cfg ps e ws now nn relay hlen hw (Or.inl hack) hpre hrc hr hdone x hx
 
+/-- … and the same over HTTP: what host A's `HttpRelay` reports delivered to host B's `WsgiEdge` is never lost by B's queue. -/
+theorem delivered_over_http_never_lost_downstream (n : Nat) (l : List Cls)
+    (cfg : Policy.Cfg) (ps : List Pol) (e : Policy.Env) (ws : List W) (now : Nat) (nn relay : Bool)
+    (hlen : ws.length = (runPolicies cfg ps e).length)
+    (hw : WriteErrCodes (ws.map W.toWrite))
+    (hdel : httpHop n (ws.map W.toWrite) = .table l)
+    (hpre : (pre.map (·.1)).Nodup) (hrc : ∀ id ∈ pre.map (·.1), (rc id).Nodup)
+    {q : State} {ls : List Label} (hr : ReachT fb (startAt pre rc nn0 att) ls q)
+    (hdone : ∀ l ∈ writeLabels now nn (runPolicies cfg ps e) ws, l ∈ ls)
+    (x : Nat) (hx : x ∈ slots e) :
+    ∃ id, W.ok id ∈ ws ∧
+      (q.delivered id).count x + ((q.failed id).map Prod.fst).count x + (outstanding q.s.rem q id).count x = 1 ∧
+      (x ∈ q.delivered id ∨
+       (∃ rp, (x, rp) ∈ q.failed id ∧ ((fb && nn) = true → ∃ b ∈ q.bounces id, b.reply = rp ∧ x ∈ b.rcpts)) ∨
+       (x ∈ outstanding q.s.rem q id ∧ id ∈ sIds q.s ∧ (id ∈ q.s.known → C12.Whereabouts q.s id))) := by
+  have hall := http_hop_delivered_means_custody n (ws.map W.toWrite) hw l hdel
+  have hack : smtpCode (call cfg ps e ws now nn relay) / 100 = 2 := by
+    show smtpSees (enqueue (ws.map W.toWrite)) / 100 = 2
+    rw [all_ok_smtp_250 _ hall]
+  exact acknowledged_recipient_never_lost cfg ps e ws now nn relay hlen hw (Or.inl hack) hpre hrc hr hdone x hx
+
 end twohosts
 
 /-! Non-vacuity -/
